@@ -16,7 +16,7 @@ for f in kf["findings"]:
     if f.get("status") != "open" or f["id"] not in byf:
         continue
     xs = byf[f["id"]]
-    best = min(xs, key=lambda x: (len(x["case"]["plan"]), x["i"]))
+    best = min(xs, key=lambda x: (len(x["case"].get("plan") or (x["case"].get("plans") or [[]])[0]), x["i"]))
     name = "findings/%s.%s.json" % (f["id"], pid)
     json.dump({"property": pid, "expect": {"cls": best["viol"]["cls"]}, "violation": best["viol"], "case": best["case"], "hashseed": "0"},
               open(os.path.join(V, name), "w"), indent=1)
